@@ -147,7 +147,10 @@ def rule_l4(ctx: Ctx, m: SharedModel) -> None:
                 continue
             idx = unparse(parent.slice)
             stmt = m.stmt_of(fi, node)
-            if dominated_by_locked_ensure(m, fi, stmt, idx):
+            dom = dominated_by_locked_ensure(m, fi, stmt, idx)
+            if dom is None:
+                raise AnalysisError(f"{fi.where}: the unlocked read cache[{idx}] follows a locked ensure call whose argument is written differently; whether it ensures this index is not decided")
+            if dom:
                 ctx.ok("C07-L4", fi.where, f"unlocked index load cache[{idx}] is dominated by a locked ensure call for `{idx}`", stmt, fi)
             else:
                 ctx.violation("C07-L4", fi, stmt, f"unlocked read cache[{idx}] is not preceded on every path by a locked ensure call for `{idx}`: the level may not exist yet or the index may be stale", robust=True)
@@ -163,7 +166,12 @@ def _parent(root: ast.AST, target: ast.AST) -> Optional[ast.AST]:
     return None
 
 
-def dominated_by_locked_ensure(m: SharedModel, fi: FuncInfo, stmt: ast.stmt, idx: str) -> bool:
+def _plain_index(e: ast.AST) -> bool:
+    """names, integer constants and +/- of them: an index whose spelling can be compared with another one"""
+    return all(isinstance(n, (ast.Name, ast.Constant, ast.BinOp, ast.UnaryOp, ast.Add, ast.Sub, ast.USub, ast.Load)) for n in ast.walk(e))
+
+
+def dominated_by_locked_ensure(m: SharedModel, fi: FuncInfo, stmt: ast.stmt, idx: str) -> Optional[bool]:
     """``stmt`` is a top-level statement of fi (or nested in straight-line code) preceded, in
     the same block, by ``with LOCK: <call that (transitively) grows the cache>(idx)`` and idx
     is not reassigned in between."""
@@ -172,6 +180,7 @@ def dominated_by_locked_ensure(m: SharedModel, fi: FuncInfo, stmt: ast.stmt, idx
         return False
     pos = body.index(stmt)
     ensured_at = None
+    other_ensure = False
     for i in range(pos - 1, -1, -1):
         st = body[i]
         # reassignment of a name used in idx
@@ -182,22 +191,29 @@ def dominated_by_locked_ensure(m: SharedModel, fi: FuncInfo, stmt: ast.stmt, idx
         origin = {getattr(r, "_origin", r): r for r in m.locked_regions.get(fi.where, [])}
         if st in origin:
             for sub in ast.walk(origin[st]):
-                if isinstance(sub, ast.Call) and any(unparse(a) == idx for a in sub.args):
+                if isinstance(sub, ast.Call):
                     cn = call_name(sub)
                     if cn and len(cn) == 2:
                         callee = m.repo.method(m.cname, cn[1])
                         if callee is not None and grows_cache(m, callee):
-                            ensured_at = i
+                            if any(unparse(a) == idx for a in list(sub.args) + [k.value for k in sub.keywords]):
+                                ensured_at = i
+                            elif not all(_plain_index(a) for a in list(sub.args) + [k.value for k in sub.keywords]):
+                                other_ensure = True
             if ensured_at is not None:
                 return True
         elif isinstance(st, ast.Expr) and isinstance(st.value, ast.Call):
             # a call to a function that itself ensures under the lock
             cn = call_name(st.value)
-            if cn and len(cn) == 2 and any(unparse(a) == idx for a in st.value.args):
+            if cn and len(cn) == 2:
                 callee = m.repo.method(m.cname, cn[1])
                 if callee is not None and callee.where in m.acquirers() and grows_cache(m, callee):
-                    return True
-    return False
+                    if any(unparse(a) == idx for a in list(st.value.args) + [k.value for k in st.value.keywords]):
+                        return True
+                    if not all(_plain_index(a) for a in list(st.value.args) + [k.value for k in st.value.keywords]):
+                        other_ensure = True
+    # a locked ensure call exists, but its argument is not a plain index expression that could be compared: not decided here
+    return None if other_ensure else False
 
 
 def grows_cache(m: SharedModel, fi: FuncInfo, seen: Optional[Set[str]] = None) -> bool:
